@@ -62,7 +62,7 @@ def read_impl(text):
     from shexer.io.graph.yielder.nt_triples_yielder import NtTriplesYielder
     y = NtTriplesYielder(raw_graph=text)
     old = signal.signal(signal.SIGALRM, _alarm)
-    signal.alarm(5)
+    signal.alarm(30)
     try:
         out = []
         for s, p, o in y.yield_triples():
